@@ -765,3 +765,4 @@ def run(ctx):
 def replay(ctx, payload):
     ctx.extra["rule"] = RULE
     eval_cases(ctx, [payload["case"]])
+THEOREMS += ['gen_links_opposite', 'gen_links_from_vector']   # translator tie: generated function bodies = model (Props/C11Gen.lean)
